@@ -6,6 +6,8 @@ void scen_c06(mt_case *);
 void scen_c07(mt_case *);
 void scen_c08(mt_case *);
 void scen_c09(mt_case *);
+void scen_c12(mt_case *);
+void scen_c13(mt_case *);
 void scen_c14(mt_case *);
 const mt_scenario mt_scenarios[] = {
   { 1, "C01 create/join", scen_c01 },
@@ -15,6 +17,8 @@ const mt_scenario mt_scenarios[] = {
   { 7, "C07 join counter", scen_c07 },
   { 8, "C08 uncond", scen_c08 },
   { 9, "C09 felock", scen_c09 },
+  { 12, "C12 stacks/records lifetime", scen_c12 },
+  { 13, "C13 reaping", scen_c13 },
   { 14, "C14 once", scen_c14 },
 };
 const int mt_n_scenarios = sizeof mt_scenarios / sizeof mt_scenarios[0];
